@@ -40,9 +40,13 @@ type Case struct {
 	Replay   int    `json:"replay,omitempty"`   // number of old datagrams replayed to the closing side right after it closed
 	XferDir  string `json:"xfer_dir,omitempty"` // transfer phase: "c" or "s" writes the bulk stream
 	XferUni  bool   `json:"xfer_uni,omitempty"`
-	TruncDir string `json:"trunc_dir,omitempty"` // truncate one short-header datagram of this direction ...
-	TruncNth int    `json:"trunc_nth,omitempty"` // ... the n-th ...
-	TruncLen int    `json:"trunc_len,omitempty"` // ... to this many bytes (DESIGN section 7 suspect 9)
+	// ClientSpec makes the client a spec-driven one (quic.UTransport, Chrome 115 ClientHello) whose transport parameter
+	// list mirrors its Config but leaves out max_idle_timeout ("noidle") or carries the value 0 ("idle0"): a legal
+	// peer that has its idle timeout disabled (RFC 9000 10.1 / 18.2). The server then applies its own period alone.
+	ClientSpec string `json:"client_spec,omitempty"`
+	TruncDir   string `json:"trunc_dir,omitempty"` // truncate one short-header datagram of this direction ...
+	TruncNth   int    `json:"trunc_nth,omitempty"` // ... the n-th ...
+	TruncLen   int    `json:"trunc_len,omitempty"` // ... to this many bytes (DESIGN section 7 suspect 9)
 }
 
 var allCalls = []string{"read", "write", "accept", "acceptuni", "open", "openuni", "dgram", "senddgram"}
@@ -121,6 +125,13 @@ func genCase(t *rapid.T) Case {
 		c.DropCC = rapid.SampledFrom([]int{0, 0, 0, 1, 1, 2, 6}).Draw(t, "dropcc")
 		c.Replay = rapid.SampledFrom([]int{0, 0, 3, 5, 9, 16}).Draw(t, "replay")
 	}
+	switch c.Cause {
+	case "idle", "close", "trclose":
+		// (more often when idleness itself is under test)
+		if k := rapid.IntRange(0, 9).Draw(t, "clientspec"); k < 2 || (c.Cause == "idle" && k < 4) {
+			c.ClientSpec = []string{"noidle", "idle0"}[k%2]
+		}
+	}
 	if c.Phase != "handshake" && rapid.IntRange(0, 3).Draw(t, "trunc") == 0 {
 		c.TruncDir = rapid.SampledFrom([]string{"c2s", "s2c"}).Draw(t, "truncdir")
 		c.TruncNth = rapid.IntRange(0, 6).Draw(t, "truncnth")
@@ -144,6 +155,9 @@ func (c *Case) effIdle(e string) int {
 	own, peer := c.C.IdleMs, c.S.IdleMs
 	if e == "s" {
 		own, peer = peer, own
+		if c.ClientSpec != "" {
+			return own // the client advertises no idle timeout: nothing to take the minimum with
+		}
 	}
 	if peer < 5000 {
 		peer = 5000
@@ -210,6 +224,14 @@ func (c *Case) aliveGuaranteed() bool {
 
 // normalize makes the generated case self-consistent (also applied to replayed cases, where it is a no-op).
 func normalize(c *Case) {
+	if c.Phase == "handshake" || c.Phase == "edge" || !(c.Cause == "idle" || c.Cause == "close" || c.Cause == "trclose") {
+		c.ClientSpec = ""
+	}
+	if c.ClientSpec != "" {
+		// Chrome's ClientHello fits one datagram and the server answers with one coalesced datagram: truncating that
+		// one costs a 200 ms initial PTO, which the arming schedule does not allow for
+		c.TruncLen = 0
+	}
 	if c.Phase == "handshake" {
 		return
 	}
